@@ -66,7 +66,7 @@ ASSUMPTIONS = [
 PLAN = {
     "quick": [{"flavour": "plain", "cases": 20000}, {"flavour": "san", "cases": 5000}],
     # the last entry is the libFuzzer campaign: each of its workers runs one `fuzz` seed case (FUZZ_RUNS executions, own seed)
-    "thorough": [{"flavour": "plain", "cases": 240000}, {"flavour": "san", "cases": 80000},
+    "thorough": [{"flavour": "plain", "cases": 160000}, {"flavour": "san", "cases": 60000},
                  {"flavour": "san", "cases": 4, "workers": 4, "flags": ["--seeds", "--fuzz"]}],
 }
 WALL_CAP = {"quick": 900, "thorough": 3300}
@@ -272,7 +272,7 @@ _SEED_TEXTS = ["[[1.1, 2.2, 3], [], [4, 5.5]]", "[[1.1, 2.2, 3], [blah], [4, 5.5
 _BASE_SEEDS = [{"kind": "truncate" if i % 3 == 0 else "input", "text": t, "cuts": "all", "reader": dict(_R, file=(None if i % 2 else 7))}
                for i, t in enumerate(_SEED_TEXTS)]
 SEED_CASES = list(_BASE_SEEDS)
-FUZZ_RUNS = {"quick": 20000, "thorough": 2500000}      # per fuzz worker; about 5-8 minutes of libFuzzer under ASan+UBSan
+FUZZ_RUNS = {"quick": 20000, "thorough": 1200000}      # per fuzz worker (4 of them): 3-12 minutes of libFuzzer under ASan+UBSan, depending on load
 
 
 def setup(flavour, tier):
